@@ -342,6 +342,8 @@ type (
 	}
 	// NA has no GenerateAliasType
 	NA struct{ in inst }
+	// VM renders map value literals and multi-argument templates
+	VM struct{ in inst }
 )
 
 func (*G) Name() string  { return "g" }
@@ -351,6 +353,18 @@ func (*G2) Name() string { return "g2" }
 func (*N1) Name() string { return "n1" }
 func (*P1) Name() string { return "p1" }
 func (*NA) Name() string { return "na" }
+func (*VM) Name() string { return "vm" }
+
+func (g *VM) GenerateType(c gengo.Context, n *types.Named) error {
+	name := n.Obj().Name()
+	c.RenderT("var M_@Type = @val\nvar S_@Type = @set\nvar A_@Type = @a + @b + @c + @d\n", snippet.Args{
+		"Type": snippet.Block(name),
+		"val":  snippet.Value(map[string]int{"z": 1, "a": 2, "m": 3, "b": 4, "y": 5}),
+		"set":  snippet.Value(map[int]bool{3: true, 1: false, 2: true}),
+		"a":    snippet.Block("1"), "b": snippet.Block("2"), "c": snippet.Block("3"), "d": snippet.Block("4"),
+	})
+	return g.in.generate("vm", c, n)
+}
 
 func (g *G) GenerateType(c gengo.Context, n *types.Named) error  { return g.generate("g", c, n) }
 func (g *GX) GenerateType(c gengo.Context, n *types.Named) error { return g.generate("gx", c, n) }
@@ -396,6 +410,8 @@ func newGen(name string) gengo.Generator {
 		return &P1{Pre: map[string]bool{}}
 	case "na":
 		return &NA{}
+	case "vm":
+		return &VM{}
 	}
 	panic("unknown scripted generator " + name)
 }
